@@ -15,10 +15,12 @@ import (
 	"context"
 	"errors"
 	"fmt"
+	"io"
 	"math"
 	"net"
 	"net/http"
 	"slices"
+	"strings"
 	"testing"
 
 	"github.com/go-logr/logr"
@@ -42,11 +44,35 @@ func (f *c40Inbound) RemoteAddr() net.Addr                    { return nil }
 func (f *c40Inbound) Active() bool                            { return true }
 func (f *c40Inbound) Context() context.Context                { return f.ctx }
 
-type c40NoNet struct{}
+// c40Net stands in for the GeyserMC skin API. No real network. mode (rev9): 0 refuse the connection,
+// 1 answer 200 with a skin, 2 answer 404, 3 answer 200 with something that is not the expected JSON.
+type c40Net struct{ mode int }
 
-func (c40NoNet) RoundTrip(*http.Request) (*http.Response, error) {
+var c40NetModes = []string{"refused", "skin-found", "http-404", "garbage-body"}
+
+func (n *c40Net) RoundTrip(req *http.Request) (*http.Response, error) {
+	resp := func(code int, body string) (*http.Response, error) {
+		return &http.Response{StatusCode: code, Status: http.StatusText(code), Proto: "HTTP/1.1", ProtoMajor: 1, ProtoMinor: 1,
+			Header: http.Header{"Content-Type": []string{"application/json"}}, Body: io.NopCloser(strings.NewReader(body)), Request: req}, nil
+	}
+	switch n.mode {
+	case 1:
+		return resp(200, `{"hash":"ab","is_steve":false,"signature":"c2ln","texture_id":"tid","value":"dmFsdWU="}`)
+	case 2:
+		return resp(404, `{"message":"not found"}`)
+	case 3:
+		return resp(200, `["name", "Notch", {"id": "069a79f4-44e9-4726-a5be-fca90e38aaf5"}`)
+	}
 	return nil, errors.New("network disabled in verification harness")
 }
+
+// LinkedPlayer values of the Floodgate record (rev9): absent, Floodgate's "null", and two linked Java accounts
+// (name;java uuid;bedrock uuid). The Java identity of a Bedrock player must not depend on them.
+var c40Linked = []string{"", "null",
+	"JavaName;069a79f4-44e9-4726-a5be-fca90e38aaf5;00000000-0000-0000-0009-01f0e0d0c0b0",
+	"Other_Java;853c80ef-3c37-49fd-aa49-938b674adae6;00000000-0000-0000-0009-01f0e0d0c0b1"}
+
+const c40Variants = 32 // linked(4) x net mode(4) x online flag(2)
 
 // symbols: one representative per class that a normaliser could mishandle.
 var c40Symbols = []string{
@@ -70,6 +96,7 @@ const c40Original = "!original profile name!" // what the event falls back to wh
 type c40 struct {
 	r     *vrt.R
 	i     *Integration
+	net   *c40Net
 	byX   map[int64]uuid.UUID
 	byID  map[uuid.UUID]int64
 	seenN map[string]bool
@@ -80,6 +107,7 @@ type c40case struct {
 	Gamertag []byte // bytes: the string may be invalid UTF-8, JSON would mangle it
 	Format   string
 	Xuid     int64
+	Var      int // rev9: linked player x skin API behaviour x online flag, see profileCase
 }
 
 func nameDefect(name string) string {
@@ -111,17 +139,22 @@ func uuidDefect(id uuid.UUID) string {
 }
 
 func (c *c40) vio(key string, cs c40case, detail string) {
-	c.r.Violation(key, fmt.Sprintf("%s: gamertag=%q format=%q xuid=%d: %s", key, cs.Gamertag, cs.Format, cs.Xuid, detail), cs)
+	c.r.Violation(key, fmt.Sprintf("%s: gamertag=%q format=%q xuid=%d variant=%d (linked=%q skin-api=%s): %s", key, cs.Gamertag, cs.Format, cs.Xuid, cs.Var, c40Linked[cs.Var%4], c40NetModes[cs.Var/4%4], detail), cs)
 }
 
 // profileCase drives the real onGameProfile for one (gamertag, format, xuid).
 func (c *c40) profileCase(cs c40case) {
 	c.r.Eval(1)
 	c.i.config.UsernameFormat = cs.Format
-	bd := &floodgate.BedrockData{Username: string(cs.Gamertag), Xuid: cs.Xuid, Version: "v", Language: "en_US"}
+	linked, net, online := cs.Var%4, cs.Var/4%4, cs.Var/16%2 == 1
+	c.net.mode = net
+	c.r.Class("linked-player:" + []string{"empty", "null", "java-account-1", "java-account-2"}[linked])
+	c.r.Class("skin-api:" + c40NetModes[net])
+	bd := &floodgate.BedrockData{Username: string(cs.Gamertag), Xuid: cs.Xuid, Version: "v", Language: "en_US",
+		LinkedPlayer: c40Linked[linked], Proxy: online, DeviceOS: floodgate.DeviceOSFromID(cs.Var % 16), IP: fmt.Sprintf("203.0.113.%d", cs.Var)}
 	gc := &GeyserConnection{BedrockData: bd, closeCb: func() {}, Conn: nopConn{}}
 	gc.Context = withBedrockContext(context.Background(), gc)
-	e := proxy.NewGameProfileRequestEvent(&c40Inbound{ctx: gc.Context}, profile.GameProfile{Name: c40Original}, false)
+	e := proxy.NewGameProfileRequestEvent(&c40Inbound{ctx: gc.Context}, profile.GameProfile{Name: c40Original}, online)
 	if p, pv := vrt.Catch(func() { c.i.onGameProfile(e) }); p {
 		c.vio("onGameProfile/panic", cs, fmt.Sprint(pv))
 		return
@@ -161,7 +194,10 @@ func defectKind(d string) string {
 func (c *c40) directCase(cs c40case) {
 	c.r.Eval(1)
 	var a, b string
-	if p, pv := vrt.Catch(func() { a = javaCompatibleUsername(string(cs.Gamertag)); b = javaCompatibleUsername(string(cs.Gamertag)) }); p {
+	if p, pv := vrt.Catch(func() {
+		a = javaCompatibleUsername(string(cs.Gamertag))
+		b = javaCompatibleUsername(string(cs.Gamertag))
+	}); p {
 		c.vio("javaCompatibleUsername/panic", cs, fmt.Sprint(pv))
 		return
 	}
@@ -226,8 +262,9 @@ func gamertags(n int, f func(idx int, s string)) int {
 func TestVerif(t *testing.T) {
 	vrt.Run(t, "C40", func(r *vrt.R) {
 		pm := NewProfileManager()
-		pm.client = &http.Client{Transport: c40NoNet{}}
-		c := &c40{r: r, byX: map[int64]uuid.UUID{}, byID: map[uuid.UUID]int64{}, seenN: map[string]bool{},
+		net := &c40Net{}
+		pm.client = &http.Client{Transport: net}
+		c := &c40{r: r, net: net, byX: map[int64]uuid.UUID{}, byID: map[uuid.UUID]int64{}, seenN: map[string]bool{},
 			i: &Integration{log: logr.Discard(), config: &bconfig.Config{}, profileManager: pm}}
 
 		var rp c40case
@@ -236,7 +273,9 @@ func TestVerif(t *testing.T) {
 			case "profile":
 				// stability/collision need the history: replay the XUID neighbourhood first
 				for _, x := range c40Xuids {
-					c.profileCase(c40case{Part: "profile", Gamertag: []byte("other"), Format: "%s", Xuid: x})
+					for v := 0; v < c40Variants; v++ {
+						c.profileCase(c40case{Part: "profile", Gamertag: []byte("other"), Format: "%s", Xuid: x, Var: v})
+					}
 				}
 				c.profileCase(rp)
 			case "direct":
@@ -259,7 +298,7 @@ func TestVerif(t *testing.T) {
 			r.Class(classOf(g))
 			c.directCase(c40case{Part: "direct", Gamertag: []byte(g)})
 			for fi, f := range c40Formats {
-				c.profileCase(c40case{Part: "profile", Gamertag: []byte(g), Format: f, Xuid: xuids[(idx+fi)%len(xuids)]})
+				c.profileCase(c40case{Part: "profile", Gamertag: []byte(g), Format: f, Xuid: xuids[(idx+fi)%len(xuids)], Var: (idx*3 + fi*5 + idx/7) % c40Variants})
 			}
 			r.Nontrivial(1)
 		})
